@@ -246,6 +246,7 @@ def call_execute_twins(F, R, dl):
              "the arms of %s and %s differ in more than the continuation (p += 1 / p = cp)%s: the builtin behaves differently as the last goal of a clause" % (name, twin, extra), where)
     R.floor("Call/Execute instruction pairs", n, 270)
     opaque_to_cut(F, R)
+    branch_intervals(F, R)
 
 
 def opaque_to_cut(F, R):
@@ -327,3 +328,34 @@ def subterms_pl(t):
     if t[0] == "cmp":
         for a in t[2]:
             yield from subterms_pl(a)
+
+
+def branch_intervals(F, R):
+    """The compiler numbers the arms of control constructs with intervals [n, n + delta): incr_by_delta puts the next
+    sibling arm at n + delta with the same delta. The variable allocator asks has_as_subbranch whether an arm lies inside
+    another to decide if a permanent variable still needs put_unsafe_value; a sibling must never count as a sub-branch, or
+    the last arm passes a reference into an environment that is being deallocated. So the upper bound of the test is
+    strict exactly where incr_by_delta lands."""
+    def find(name):
+        c = [p for p, it in F.items.items() if it["file"] == "src/forms.rs" and p.endswith("BranchNumberInner::" + name)]
+        if len(c) != 1:
+            raise AnchorLost("BranchNumberInner::%s (%d)" % (name, len(c)))
+        return c[0]
+    hs, inc = find("has_as_subbranch"), find("incr_by_delta")
+    ib = F.hir(inc)["body"]
+    # incr_by_delta: branch_num: self.branch_num + self.delta ; delta unchanged
+    adds = [x for x in walk(ib) if x["k"] == "Binary" and x["op"] == "Add" and {y["name"] for y in walk(x) if y["k"] == "Field"} >= {"branch_num", "delta"}]
+    if len(adds) != 1:
+        raise AnchorLost("incr_by_delta: next sibling = branch_num + delta not recognised (%d)" % len(adds))
+    hb = F.hir(hs)["body"]
+    uppers = [x for x in walk(hb) if x["k"] == "Binary" and x["op"] in ("Lt", "Le", "Gt", "Ge")
+              and any(y["k"] == "Binary" and y["op"] == "Add" and {z["name"] for z in walk(y) if z["k"] == "Field"} >= {"branch_num", "delta"} for y in (x["a"], x["b"]))]
+    if len(uppers) != 1:
+        raise AnchorLost("has_as_subbranch: the comparison with branch_num + delta (%d)" % len(uppers))
+    u = uppers[0]
+    sum_on_right = u["b"]["k"] == "Binary"
+    strict = (u["op"] == "Lt" and sum_on_right) or (u["op"] == "Gt" and not sum_on_right)
+    R.ob("C07:branch-numbers:next-sibling-is-not-a-sub-branch", strict,
+         "has_as_subbranch accepts other.branch_num %s self.branch_num + self.delta, which is exactly where incr_by_delta puts the NEXT sibling arm: the last arm of a "
+         "disjunction or if-then-else then counts as a sub-branch of the arm before it, the allocator drops put_unsafe_value for a variable first bound there, and the "
+         "clause passes a dangling environment reference to its last call" % {"Lt": "<", "Le": "<=", "Gt": ">", "Ge": ">="}[u["op"]], F.where(hs))
